@@ -962,7 +962,8 @@ static bool _advance_parsing(binson_parser *parser, uint8_t scan_flags, bbuf *sc
 
                 if ((next_state == BINSON_STATE_PARSED_OBJECT_BEGIN) ||
                     (next_state == BINSON_STATE_PARSED_ARRAY_BEGIN)) {
-                    if (CHECKBITMASK(state->flags, BINSON_STATE_IN_ARRAY_1)) {
+                    if (CHECKBITMASK(state->flags, BINSON_STATE_IN_ARRAY_1) &&
+                        CHECKBITMASK(scan_flags, BINSON_ADVANCE_VALUE)) {
                         state->flags = BINSON_STATE_IN_ARRAY_2;
                         CLEARBITMASK(scan_flags, BINSON_ADVANCE_VALUE);
                     }
@@ -1105,7 +1106,7 @@ static bool _advance_parsing(binson_parser *parser, uint8_t scan_flags, bbuf *sc
                     state->flags = BINSON_STATE_IN_ARRAY_1;
                     state->array_depth++;
                 }
-                else {
+                else if (state->flags == BINSON_STATE_IN_OBJ_EXPECTING_FIELD) {
                     state->flags = BINSON_STATE_IN_OBJ_EXPECTING_VALUE;
                 }
                 break;
